@@ -74,14 +74,22 @@ func (s *Server) RunTcp(host string, port int, idleTimeout time.Duration, onBoun
 	}
 	arm := func(d time.Duration) {
 		disarm()
-		timer = time.AfterFunc(d, func() {
+		var t *time.Timer
+		t = time.AfterFunc(d, func() {
 			mu.Lock()
 			defer mu.Unlock()
+			// Stop cannot recall a callback that has already fired: if the
+			// timer was disarmed or re-armed since, this expiry is stale and
+			// a connection may have come and gone in the meantime.
+			if timer != t {
+				return
+			}
 			if active == 0 {
 				shutdown = true
 				_ = tl.Close() // unblock Accept
 			}
 		})
+		timer = t
 	}
 	if idleTimeout > 0 {
 		grace := idleTimeout
